@@ -71,6 +71,31 @@ def run(ctx):
     R = flow.Runner(ctx)
     for c in cells:
         R.add(program(c))
+    # branch targets given by EQU names whose bodies mention `$` (the address of the EQU statement), alone or together with a
+    # name that is only defined further down; used from other addresses, before and after
+    nequ = 0
+    def brs(mn, nm):
+        return {"k": "br", "mn": mn, "tgt": {"t": "l", "nm": nm, "add": 0}}
+    for bits in (16, 32):
+        for org in (0, 0x7c00):
+            for fwd in (0, 1):
+                for gap in (0, 5, 140):
+                    for mn in ("JMP", "CALL", "JE", "JNC"):
+                        st = [{"k": "org", "v": org}] + ([{"k": "bits", "v": 32}] if bits == 32 else []) + [{"k": "ins", "mn": "NOP", "ops": []}]
+                        skip = {"k": "equ", "nm": "SKIP", "e": {"o": "n", "v": 3}}
+                        if not fwd:
+                            st.append(skip)
+                        st.append({"k": "equ", "nm": "resume", "e": {"o": "+", "a": {"o": "$"}, "b": {"o": "id", "nm": "SKIP"}}})
+                        st.append({"k": "equ", "nm": "here0", "e": {"o": "$"}})
+                        st.append({"k": "data", "mn": "DB", "items": [{"t": "e", "e": {"o": "n", "v": v}} for v in (0x90, 0x90, 0x90, 0xF4)]})
+                        if gap:
+                            st.append({"k": "resb", "e": {"o": "n", "v": gap}})
+                        if fwd:
+                            st.append(skip)
+                        st += [brs(mn, "resume"), brs("JMP", "here0")]       # uses from other addresses, after both definitions
+                        st += [brs(mn, "resume"), {"k": "label", "nm": "aft"}, {"k": "ins", "mn": "HLT", "ops": []}]
+                        R.add(st)
+                        nequ += 1
     # branches across REAL statements (instructions of every size class, data, ALIGNB) instead of RESB filler: seeded random programs
     # of spec/Gen_Prog.tla; every label-target branch in them is judged against the real address of its target
     import progs
@@ -89,7 +114,7 @@ def run(ctx):
     rejected_cases = {r["id"] for r in ver["rej"]}
     cov = {
         "states": sum(s["distinct"] for s in ctx.tlc_stats), "transitions": sum(s["generated"] for s in ctx.tlc_stats),
-        "traces_validated_against_impl": len(R.cases), "corpus_programs": ncorpus, "trace_events": ver["events"],
+        "traces_validated_against_impl": len(R.cases), "corpus_programs": ncorpus, "equ_dollar_target_programs": nequ, "trace_events": ver["events"],
         "programs": len(R.cases), "programs_without_diagnostic": ok,
         "programs_accepted_by_reference": ok - len([i for i in rejected_cases]),
         "programs_explained_by_known_findings": len({r["id"] for _, r in known}),
